@@ -21,7 +21,8 @@ MAXB = [65536, 1, 2, 3, 5]
 class UpgradeHarness:
     horizon = 4000
 
-    def __init__(self, variant, mode, data, status=None):
+    def __init__(self, variant, mode, data, status=None, prelude="none"):
+        self.prelude = prelude            # what the caller does with the (empty) response body before touching the stream: none | read | iter
         self.variant = variant
         self.mode = mode                  # "101" | "connect"
         self.data = data.encode()
@@ -60,6 +61,10 @@ class UpgradeHarness:
             def prog():
                 with pool.stream(method, url, headers=hdrs) as r:
                     info["status"] = r.status
+                    if self.prelude == "read":
+                        info["body"] = r.read()
+                    elif self.prelude == "iter":
+                        info["body"] = b"".join(r.iter_stream())
                     ns = r.extensions["network_stream"]
                     while len(collected) < n:
                         mb = pick()
@@ -83,6 +88,10 @@ class UpgradeHarness:
             async def aprog():
                 async with pool.stream(method, url, headers=hdrs) as r:
                     info["status"] = r.status
+                    if self.prelude == "read":
+                        info["body"] = await r.aread()
+                    elif self.prelude == "iter":
+                        info["body"] = b"".join([c async for c in r.aiter_stream()])
                     ns = r.extensions["network_stream"]
                     while len(collected) < n:
                         mb = pick()
@@ -106,10 +115,12 @@ class UpgradeHarness:
         ex.notes["unmergeable"] = sorted(w.unmergeable)
         ex.trace = [op.rec() for op in w.net.ledger if op.kind in ("read", "write", "close", "connect_tcp")] + [{"reads": info.get("reads")}]
         sig = {"harness": "upgrade", "mode": self.mode}
+        if self.prelude != "none":
+            sig["prelude"] = self.prelude
         got = bytes(collected)
 
         def viol(kind, msg):
-            ex.violations.append(Violation("C17." + kind, f"{msg} | mode={self.mode} status={self.status} variant={self.variant} data={self.data!r} "
+            ex.violations.append(Violation("C17." + kind, f"{msg} | mode={self.mode} status={self.status} prelude={self.prelude} variant={self.variant} data={self.data!r} "
                                            f"caller reads (max_bytes, returned)={info.get('reads')} network reads={[len(o.result) for o in w.net.ledger if o.kind == 'read' and isinstance(o.result, bytes)]}",
                                            dict(sig, kind=kind)))
         ex.nontrivial = len(info.get("reads", [])) > 1 or sum(1 for o in w.net.ledger if o.kind == "read") > 2
@@ -123,6 +134,8 @@ class UpgradeHarness:
             return ex
         if info.get("status") != self.status:
             viol("status", f"status {info.get('status')}")
+        if info.get("body", b"") != b"":
+            viol("body", f"the response body of a switched-protocol response is {info.get('body')!r}: bytes of the new protocol were consumed as body")
         if got != self.data:
             viol("bytes-differ", f"upgraded stream yielded {got!r}, the server sent {self.data!r} after the head")
         if "overlong" in info:
@@ -190,6 +203,10 @@ def specs(tier):
             for d in datas:
                 out.append(make_spec(MOD, "UpgradeHarness", variant=variant, mode=mode, data=d))
         out.append(make_spec(MOD, "UpgradeHarness", variant=variant, mode="connect", data="abc", status=204))
+        # the caller drains the (empty) response body before using the stream
+        for mode in ("101", "connect"):
+            for prelude in ("read", "iter"):
+                out.append(make_spec(MOD, "UpgradeHarness", variant=variant, mode=mode, data="abc" if tier == "quick" else "abcdef", prelude=prelude))
         out.append(make_spec(MOD, "TunnelSegHarness", variant=variant, ct="tunnel"))
         if tier == "thorough":
             out.append(make_spec(MOD, "TunnelSegHarness", variant=variant, ct="tunnel-s"))
@@ -207,7 +224,7 @@ def check(tier="quick", seed=0, workers=None, only=None):
     cov = evidence.stats_coverage(
         st,
         rule=("per scenario (mode 101 / CONNECT-2xx, post-head data of 0..10 bytes, variant): choices = how many bytes each network read returns (every cut) and which "
-              "max_bytes in {65536,1,2,3,5} each caller read uses; states merged on (wire position, h11 state, leading-data buffer, bytes collected, stack locals); "
+              "max_bytes in {65536,1,2,3,5} each caller read uses; also with the caller reading / iterating the empty response body first; states merged on (wire position, h11 state, leading-data buffer, bytes collected, stack locals); "
               "drained frontier = every segmentation x every max_bytes sequence; non-trivial = more than one caller read or more than two network reads"),
         extra={"scenarios": len(sp)})
     return {"level": "model_checking", "coverage": cov, "violations": viols,
